@@ -251,6 +251,37 @@ def cbin_check(case):
     return Res(list(seen.items()), o=(rec_compress, src), tr=2)
 
 
+# ------------------------------------------------------------------ recordings longer than the reconstructor's window
+def long_cases(tier, seed):
+    nss = (60000, 60001, 67000, 120000) if tier == "quick" else (59999, 60000, 60001, 60012, 67000, 119999, 120000, 120001, 125000, 180011)
+    return [(ns,) for ns in nss]
+
+
+def long_check(case):
+    ns = case[0]
+    root = os.path.join(synth.proc_scratch(), "c03l")
+    np2.clean(root)
+    assign = [0, 1, 2, 3, 1, 0]
+    sites = np2.sites_for(assign)
+    data = np2.content(ns, 7, "ramp")
+    ap = np2.make_session(root, "NP2.4", sites, data)
+    orig_sha = np2.sha1(ap)
+    orig_meta = spikeglx.read_meta_data(ap.with_suffix(".meta"))
+    seen = {}
+    ctx = "ns=%d (default windows)" % ns
+    try:
+        status, conv = np2.convert(ap, post_check=True)          # default processing window (2 s)
+        np2.release(conv)
+        if status != 1:
+            seen.setdefault("split:status", "%s: process() returned %r" % (ctx, status))
+        _compare_split(root, data, sites, seen, ctx)
+        _reconstruct_and_compare(root, orig_sha, orig_meta, seen, ctx)
+    except Exception as e:
+        seen.setdefault("split:exc:%s" % type(e).__name__, "%s: raised %s: %s" % (ctx, type(e).__name__, e))
+    shutil.rmtree(root, ignore_errors=True)
+    return Res(list(seen.items()), o=(ns % 60000 == 0,), tr=2)
+
+
 CHECK = {
     "property": "C03",
     "rule": "values: every int16 value on every channel x 9 (range, maxint) settings x 2 probe types; maps: all 4^6 shank assignments of six sites; "
@@ -266,5 +297,6 @@ CHECK = {
         Clause("shank-maps", "all 4^6 shank maps, split + reconstruct", cases=map_cases, check=map_check),
         Clause("windows", "window sizes x recording lengths", cases=window_cases, check=window_check),
         Clause("compressed", "compressed source / compressed shank files / compressed reconstruction", cases=cbin_cases, check=cbin_check),
+        Clause("long", "recordings around and beyond the 60000-sample default windows of converter and reconstructor", cases=long_cases, check=long_check),
     ],
 }
